@@ -35,6 +35,9 @@ class Amorph(Indicator):
         """Returns a dict format of how this indicator can be generated"""
         output = {"analysis": self._analysis_method.__name__}
 
+        if self._analysis_kwargs:
+            output["args"] = deepcopy(self._analysis_kwargs)
+
         for name, value in self.__dict__.items():
             if name == "candles":
                 continue
